@@ -7,7 +7,13 @@ import (
 	"go/parser"
 	"go/printer"
 	"go/token"
+	"sort"
+	"strconv"
 	"strings"
+	"time"
+
+	"github.com/AliceO2Group/Control/common/utils/uid"
+	"github.com/AliceO2Group/Control/core/controlcommands"
 
 	"verifharness/fw"
 )
@@ -103,9 +109,202 @@ func leanList(xs []string) string {
 	return "[" + strings.Join(q, ", ") + "]"
 }
 
+// flowOps lists, in source order, the statements of RunCommand that say WHICH
+// object is used for what: the id that makes the key, the registration, the send
+// call and the select clauses (all on the parameter `cmd`).
+func flowOps(fset *token.FileSet, fd *ast.FuncDecl) []string {
+	var out []string
+	if fd == nil {
+		return out
+	}
+	params := []string{}
+	for _, f := range fd.Type.Params.List {
+		for _, n := range f.Names {
+			params = append(params, n.Name)
+		}
+	}
+	out = append(out, "params "+strings.Join(params, ","))
+	ast.Inspect(fd.Body, func(n ast.Node) bool {
+		switch x := n.(type) {
+		case *ast.AssignStmt:
+			s := src(fset, x)
+			if strings.Contains(s, "s.pending[") || strings.Contains(s, "s.SendFunc(") || strings.Contains(s, ".GetId()") {
+				out = append(out, s)
+			}
+		case *ast.CommClause:
+			if x.Comm != nil {
+				out = append(out, "case "+src(fset, x.Comm))
+			}
+		}
+		return true
+	})
+	return out
+}
+
+// commitCalls: how commit obtains the per-target command and what it hands to RunCommand.
+func commitCalls(fset *token.FileSet, fd *ast.FuncDecl) []string {
+	var out []string
+	if fd == nil {
+		return out
+	}
+	ast.Inspect(fd.Body, func(n ast.Node) bool {
+		if x, ok := n.(*ast.AssignStmt); ok {
+			s := src(fset, x)
+			if strings.Contains(s, ".MakeSingleTarget(") || strings.Contains(s, ".RunCommand(") {
+				out = append(out, s)
+			}
+		}
+		return true
+	})
+	return out
+}
+
+// singleTargetTable evaluates the LINKED MakeSingleTarget (through the wrappers
+// the core enqueues: Transition, TriggerHook, and the base itself) on a few
+// commands and tabulates what the per-target command carries. Row:
+// (kind, id, targets, tmo ms, args, receiver, out) with out = none (nil) or
+// some (id — 0 if it is not the command's —, targets, tmo ms, argument token of
+// the receiver — 0 the empty map, 999 nil/other —, everything else preserved).
+func singleTargetTable() string {
+	type row struct {
+		kind    string
+		targets []int
+		tmo     time.Duration // 0: leave the constructor's default
+		args    map[int]int
+		nilArgs bool
+		recv    []int
+	}
+	rows := []row{
+		{"transition", []int{1}, 0, nil, true, []int{1, 2}},
+		{"transition", []int{1, 2, 3}, 30 * time.Millisecond, map[int]int{2: 7}, false, []int{1, 2, 3, 4}},
+		{"transition", []int{4, 2}, 120 * time.Second, map[int]int{4: 1, 2: 2}, false, []int{2, 4}},
+		{"transition", []int{5, 6}, 1500 * time.Millisecond, map[int]int{}, false, []int{6}},
+		{"transition", []int{}, 10 * time.Second, nil, true, []int{1}},
+		{"triggerhook", []int{3, 1}, 45 * time.Second, nil, false, []int{1, 3, 2}},
+		{"base", []int{7, 8}, 200 * time.Millisecond, map[int]int{8: 12}, false, []int{7, 8, 9}},
+	}
+	var b strings.Builder
+	b.WriteString("def singleTargetTable : List (String × Nat × List Nat × Nat × List (Nat × Nat) × Nat × Option (Nat × List Nat × Nat × Nat × Bool)) := [\n")
+	first := true
+	for ri, rw := range rows {
+		env := uid.New()
+		var recv []controlcommands.MesosCommandTarget
+		for _, t := range rw.targets {
+			recv = append(recv, target(t))
+		}
+		var am controlcommands.PropertyMapsMap
+		if !rw.nilArgs {
+			am = controlcommands.PropertyMapsMap{}
+			for t, a := range rw.args {
+				am[target(t)] = controlcommands.PropertyMap{"k": "v" + strconv.Itoa(a)}
+			}
+		}
+		var cmd controlcommands.MesosCommand
+		var base *controlcommands.MesosCommandBase
+		switch rw.kind {
+		case "transition":
+			c := controlcommands.NewMesosCommand_Transition(env, recv, "SRC", "EV", "DST", am)
+			cmd, base = c, &c.MesosCommandBase
+		case "triggerhook":
+			c := controlcommands.NewMesosCommand_TriggerHook(env, recv)
+			cmd, base = c, &c.MesosCommandBase
+		default:
+			c := controlcommands.NewMesosCommand("MesosCommand_X", env, recv, am)
+			cmd, base = c, c
+		}
+		if rw.tmo != 0 {
+			base.ResponseTimeout = rw.tmo // the exported field, as core/task/manager.go sets it
+		}
+		id := 100 + ri
+		var ks []int
+		for t := range rw.args {
+			ks = append(ks, t)
+		}
+		sort.Ints(ks)
+		var al []string
+		for _, t := range ks {
+			al = append(al, fmt.Sprintf("(%d, %d)", t, rw.args[t]))
+		}
+		var tl []string
+		for _, t := range rw.targets {
+			tl = append(tl, strconv.Itoa(t))
+		}
+		for _, rc := range rw.recv {
+			out := "none"
+			func() {
+				defer func() {
+					if recover() != nil {
+						out = "some (0, [], 0, 999, false)"
+					}
+				}()
+				sc := cmd.MakeSingleTarget(target(rc))
+				if sc == nil {
+					return
+				}
+				var sb *controlcommands.MesosCommandBase
+				rest := true
+				switch x := sc.(type) {
+				case *controlcommands.MesosCommand_Transition:
+					if x == nil {
+						return
+					}
+					sb = &x.MesosCommandBase
+					o, ok := cmd.(*controlcommands.MesosCommand_Transition)
+					rest = ok && x.Source == o.Source && x.Event == o.Event && x.Destination == o.Destination
+				case *controlcommands.MesosCommand_TriggerHook:
+					if x == nil {
+						return
+					}
+					sb = &x.MesosCommandBase
+					_, rest = cmd.(*controlcommands.MesosCommand_TriggerHook)
+				case *controlcommands.MesosCommandBase:
+					if x == nil {
+						return
+					}
+					sb = x
+					_, rest = cmd.(*controlcommands.MesosCommandBase)
+				default:
+					out = "some (0, [], 0, 999, false)"
+					return
+				}
+				rest = rest && sc.GetName() == cmd.GetName() && sc.GetEnvironmentId() == cmd.GetEnvironmentId() &&
+					sc.IsMutator() == cmd.IsMutator()
+				sid := 0
+				if sc.GetId() == cmd.GetId() {
+					sid = id
+				}
+				var stl []string
+				for _, t := range sb.TargetList {
+					stl = append(stl, strconv.Itoa(targetNo(t)))
+				}
+				arg := 999
+				switch {
+				case sb.Arguments == nil:
+				case len(sb.Arguments) == 0:
+					arg = 0
+				case len(sb.Arguments) == 1 && strings.HasPrefix(sb.Arguments["k"], "v"):
+					if n, err := strconv.Atoi(sb.Arguments["k"][1:]); err == nil {
+						arg = n
+					}
+				}
+				out = fmt.Sprintf("some (%d, [%s], %d, %d, %v)", sid, strings.Join(stl, ", "),
+					sc.GetResponseTimeout().Milliseconds(), arg, rest)
+			}()
+			if !first {
+				b.WriteString(",\n")
+			}
+			first = false
+			fmt.Fprintf(&b, "  (%q, %d, [%s], %d, [%s], %d, %s)", rw.kind, id, strings.Join(tl, ", "),
+				base.ResponseTimeout.Milliseconds(), strings.Join(al, ", "), rc, out)
+		}
+	}
+	b.WriteString("]\n")
+	return b.String()
+}
+
 func genFacts(repo string) (string, error) {
 	fset := token.NewFileSet()
-	var fields, runOps, prOps, selectCases, consol []string
+	var fields, runOps, prOps, selectCases, consol, flow, commitOps []string
 	runLit, prLit := "", ""
 	if f, err := parser.ParseFile(fset, repo+"/core/controlcommands/mesoscommandservent.go", nil, 0); err == nil {
 		ast.Inspect(f, func(n ast.Node) bool {
@@ -122,6 +321,7 @@ func genFacts(repo string) (string, error) {
 		})
 		run := funcDecl(f, "Servent", "RunCommand")
 		runOps = lockedOps(fset, run)
+		flow = flowOps(fset, run)
 		runLit = callIdLiteral(fset, run)
 		if run != nil {
 			ast.Inspect(run.Body, func(n ast.Node) bool {
@@ -134,6 +334,9 @@ func genFacts(repo string) (string, error) {
 		pr := funcDecl(f, "Servent", "ProcessResponse")
 		prOps = lockedOps(fset, pr)
 		prLit = callIdLiteral(fset, pr)
+	}
+	if f, err := parser.ParseFile(fset, repo+"/core/controlcommands/commandqueue.go", nil, 0); err == nil {
+		commitOps = commitCalls(fset, funcDecl(f, "CommandQueue", "commit"))
 	}
 	if f, err := parser.ParseFile(fset, repo+"/core/controlcommands/multiresponse.go", nil, 0); err == nil {
 		if fd := funcDecl(f, "", "consolidateResponses"); fd != nil {
@@ -165,7 +368,13 @@ func genFacts(repo string) (string, error) {
 	fmt.Fprintf(&b, "def runCommandSelect : List String := %s\n\n", leanList(selectCases))
 	b.WriteString("/-- top-level statements of consolidateResponses (multiresponse.go) -/\n")
 	fmt.Fprintf(&b, "def consolidateShape : List String := %s\n\n", leanList(consol))
-	b.WriteString("end Gen.C12\n")
+	b.WriteString("/-- RunCommand: its parameters, where the key's id comes from, registration, the send call and the select clauses, in source order -/\n")
+	fmt.Fprintf(&b, "def runCommandFlow : List String := %s\n\n", leanList(flow))
+	b.WriteString("/-- commit: how the per-target command is made and what RunCommand is handed -/\n")
+	fmt.Fprintf(&b, "def commitCalls : List String := %s\n\n", leanList(commitOps))
+	b.WriteString("/-- the LINKED MakeSingleTarget evaluated on a few commands: (kind, id, targets, tmo ms, args, receiver,\n    none | some (id or 0, targets, tmo ms, receiver's argument token (0 empty map, 999 nil/other), everything else preserved)) -/\n")
+	b.WriteString(singleTargetTable())
+	b.WriteString("\nend Gen.C12\n")
 	return b.String(), nil
 }
 
